@@ -1,4 +1,5 @@
 import TcheranVerif.Proofs.MagicCert
+import TcheranVerif.Proofs.Sweep.S16  -- only to bound how many parts are checked at once (≈8 GB each)
 /-! C07 sweep, part 20: rook squares [29, 30, 33, 34] — decided by the kernel alone -/
 namespace Tcheran.Sweep
 
